@@ -84,6 +84,9 @@ func refParse(s string) (d Directive, class string) {
 	seen := map[byte]bool{}
 	repeated := false
 	for k := 0; k < len(d.Flags); k++ {
+		if strings.IndexByte(flagChars, d.Flags[k]) < 0 {
+			continue // white space other than ' ' is not a documented flag: nothing is demanded of it
+		}
 		if seen[d.Flags[k]] {
 			repeated = true
 		}
